@@ -163,9 +163,10 @@ theorem pctStr_safelyQuote (s : Str) : pctStr (safelyQuote s) = pctStr s := by
 theorem pctStr_safelyUnquote (U : List UInt8) (hU : (0x25 : UInt8) ∈ U) (s : Str) :
     pctStr (safelyUnquote U s) = pctStr s := by
   unfold pctStr safelyUnquote
-  have hout := outTok_unquoteToks U (tokens s) (wf_tokens s)
-  rw [tokens_render_of_canon _ (fun t ht => canon_of_outTok hU (wf_tokens s) (hout t ht)),
-    pct_unquoteToks]
+  have hw := wf_escapeRaw (wf_tokens s)
+  have hout := outTok_unquoteToks U (escapeRaw (tokens s)) hw
+  rw [tokens_render_of_canon _ (fun t ht => canon_of_outTok hU hw (hout t ht)),
+    pct_unquoteToks, pct_escapeRaw]
 
 theorem pct_requote (quoted : Bool) (U : List UInt8) (hU : (0x25 : UInt8) ∈ U) (s : Str) :
     pctStr (requote quoted (safelyUnquote U) s) = pctStr s := by
